@@ -4,6 +4,7 @@ on match.  Model: Model/Observe.lean; every statement is for all histories
 (induction over the operation list) or for every reachable (`Inv`) state.
 -/
 import CoapLite.Lemmas.Observe
+import CoapLite.Lemmas.ObserveRefine
 import CoapLite.Lemmas.Shape.Observe
 import CoapLite.Lemmas.Shape.Global
 
@@ -77,6 +78,25 @@ theorem acknowledge_keeps_observers (s : Subject) (h : Inv s) (ep mid : Nat) (pa
     intro o _
     simp only [Function.comp, ackOne]
     split <;> rfl
+
+/-- every operation, seen from any one (resource, endpoint) pair: the pair's entry after the operation is
+what the per-pair rule book `specStep` says – in particular a deregistration touches exactly the
+pair it names, and only if the token matches; a registration touches exactly the pair it names;
+nothing an operation does to one pair is visible in another pair's entry -/
+theorem every_operation_per_pair (s : Subject) (h : Inv s) (op : Op) (p : String) (ep : Nat) :
+    viewOf (step s op) p ep = specStep s.limit p ep (viewOf s p ep) op :=
+  (view_step s h op p ep).1
+
+theorem deregistration_only_on_match (s : Subject) (h : Inv s) (ep ep' : Nat) (p p' : String) (t : Bytes) :
+    viewOf (deregister s ep p t) p' ep' =
+      if ep = ep' ∧ p = p' then (viewOf s p' ep').bind (fun o => if o.token = t then none else some o)
+      else viewOf s p' ep' :=
+  (view_step s h (.dereg ep p t) p' ep').1
+
+theorem registration_only_named_pair (s : Subject) (h : Inv s) (ep ep' : Nat) (p p' : String) (t : Bytes) :
+    viewOf (register s ep p t) p' ep' =
+      if ep = ep' ∧ p = p' then some (fresh ep' t) else viewOf s p' ep' :=
+  (view_step s h (.reg ep p t) p' ep').1
 
 /-! non-vacuity: a reachable state with two observers on one path -/
 example : (run [.reg 1 "p" [0xa], .reg 2 "p" [0xb], .reg 1 "p" [0xc]]).get "p" =
